@@ -889,7 +889,8 @@ class OracleRun:
     def check_read(self, kind, i) -> Optional[C.Failing]:
         acc = self.acc()
         core = kind != "shell" and self.rng.random() < 0.15
-        out = self.send(mk_req("GET", [TOP[kind], self.seg(i)], acc, level="core" if core else None))
+        level = "core" if core else self.rng.choice([None, None, None, "deep"])      # any other level value is the full object
+        out = self.send(mk_req("GET", [TOP[kind], self.seg(i)], acc, level=level))
         want = self.ref.get(kind, i)
         if out[0] != "resp":
             return self.fail(f"http:GET:{kind}:crash", f"GET {kind} {i!r} raised {out[1]}", out)
@@ -939,6 +940,9 @@ class OracleRun:
                 return self.fail(f"http:PAGE:{kind}:status", f"page request answered {o2[:2]}", o2)
             if not o2[3][1]:
                 break
+            if len(o2[3][1]) > limit or (len(o2[3][1]) < limit and len(seen) + len(o2[3][1]) < len(got)):
+                return self.fail(f"http:PAGE:{kind}:page-size", f"a page requested with limit={limit} holds {len(o2[3][1])} items "
+                                 f"({len(seen)} of {len(got)} seen before)", len(o2[3][1]), limit)
             seen += o2[3][1]
             cursor = str(o2[3][2])
             pages += 1
